@@ -415,6 +415,7 @@ class EBB3:
                 else:
                     error_msg = 'EBB Serial Timeout while reading status byte.'
                 self.record_error(error_msg)
+                return None
 
         except (serial.SerialException, IOError, RuntimeError, OSError):
             error_msg = 'USB communication error after status byte query'
